@@ -1,1 +1,6 @@
 import CffVerif
+#print axioms Sched.C03_at_most_N_running
+#print axioms Sched.C03_default
+#print axioms Sched.C03_worker_slots
+#print axioms Sched.C09_nil_implies_not_cancelled
+#print axioms Sched.C09_no_start_after_cancel
